@@ -6,7 +6,9 @@ from vlib import core
 
 LEVEL = "exploration"
 TECHNIQUE = ("TLC enumerates value-class vectors over the field kinds the library's message, event and State types are "
-             "made of (int, uint, string, bytes, slice, map, bool, embedded Buffer/Pipeline/LRU set): all vectors with up to "
+             "made of (int, uint, string, bytes, slice, map, bool, embedded Buffer/Pipeline/LRU set — the containers also in "
+             "interrupted states: Buffer after pops/UpdateFront, Pipeline with items mid-flight and dwell counts, LRU set after "
+             "evictions without a following visit, and drained): all vectors with up to "
              "2 (quick) / 3 (thorough) coordinates away from the base classes, and checks on the model of an encoding/json "
              "round trip (JsonSem!RT) that the only kinds that do not come back equal are invalid-UTF-8 strings and "
              "empty-but-not-nil omitempty collections. A reflection-driven instantiator builds, for every message type of "
@@ -107,13 +109,17 @@ def run(ck):
         raise core.Broken("driver covers call sites %s, scan expects %s" % (sorted(covered ^ want_where), "the same set"))
     if out["containers_without_maker"]:
         raise core.Broken("State types embed encapsulated containers the driver cannot build: %s" % out["containers_without_maker"])
+    if not out.get("container_probes"):
+        raise core.Broken("no behavioural probe of an embedded container was run")
+    ck.cov["container_probes"] = out["container_probes"]
     if out["failure_count"] != len(out["failures"]):
         raise core.Broken("failure list truncated (%d of %d)" % (len(out["failures"]), out["failure_count"]))
 
     ck.cov["rule"] = ("one case = one concrete value of one library type (message / event / State) taken through its real "
                       "checkpoint path and compared with the original by type and reflect.DeepEqual semantics (nil vs empty "
                       "and unexported fields count; inside Buffer/Pipeline/lruset.Set a nil and an empty internal collection "
-                      "are the same value), after each of the three restores (fresh / dirty_target / same_live). Non-trivial = the value "
+                      "are the same value; equal containers are additionally probed behaviourally on deep copies: drain order of a Set "
+                      "and of a Buffer, tick-by-tick output of a Pipeline, original vs restored), after each of the three restores (fresh / dirty_target / same_live). Non-trivial = the value "
                       "differs from the all-base vector.")
     ck.assumptions += [
         "values are synthetic: one class per field kind (TLC vectors) or per position (seeded); states reached by workloads are not replayed",
